@@ -13,6 +13,9 @@ B1: TLC enumerates EVERY environment script up to a bound (exhaustive) and simul
     drops x stop/unlink); each script carries the outputs M expects after every action.  The scripts
     are run on the REAL {Value,Map}DownlinkRuntime (harness h_runtime/dlruntime, paused single-threaded
     tokio, scripted remote lane and consumers) and compared step by step.
+    Scripts include malformed event bodies at any point of a session under both BadFrameStrategy configurations the
+    callers use (ReportStrategy(AlwaysAbort | AlwaysIgnore).boxed(); map-event downlinks with NoInterpretation), consumers
+    writing garbage / non-UTF-8 keys on their command channel, take/drop events, stop requests and a vanishing socket.
 B2: every recorded execution (conforming or not) is validated by TLC against P
     (specs/Trace_DownlinkSession.tla); rejection => VIOLATION, unless it is the deviation action of an
     OPEN known finding (known_findings/C07.json), which prints KNOWN-FINDING.
@@ -23,8 +26,8 @@ from vlib import replay as rp
 
 PROP = "C07"
 INVS = ["TypeOK", "ListsDisjoint", "BackpressureOnlyWhileWriting", "BpWellFormed", "PropertyHolds"]
-ALL_FINDINGS = ["F10a", "F10b", "F10c", "F10d"]
-MODEL_FIXABLE = ["F10a", "F10b", "F10d"]
+ALL_FINDINGS = ["F10a", "F10b", "F10c"]
+MODEL_FIXABLE = ["F10a", "F10b"]
 N_BAD_BODIES = 7                          # harness BAD_BODIES: the pool the abstract malformed frame is drawn from          # findings whose repaired behaviour M can model (CONSTANT Fixed)
 
 LANES = {  # MC_DownlinkRuntime operator -> harness cfg "init"
@@ -72,7 +75,7 @@ BOTH = strset(["abort", "ignore"])
 
 # ----------------------------------------------------------------------------- scripts <-> cases
 
-INPUT = {"k", "c", "sync", "keep", "op", "hold", "settle"}
+INPUT = {"k", "c", "sync", "keep", "op", "hold", "settle", "how"}
 
 
 def concretise(x, b):
@@ -93,6 +96,8 @@ def to_case(cid, c, replay, nth=0):
     for i, a in enumerate(h):
         act = {k: v for k, v in a.items() if k in INPUT}
         act["settle"] = bool(h[i + 1]["pre"]) if i + 1 < len(h) else True
+        if act["k"] == "rclose":           # how the connection goes away: dropped / bytes that are no envelope
+            act["how"] = ("drop", "corrupt")[nth % 2]
         exp = {}
         dl = {}
         for d in a.get("del", []):
@@ -243,9 +248,6 @@ def probes():
         {"id": "probe-F10c", "cfg": {"kind": "map", "cap": 2, "init": {"k1": "i1", "k2": "i2"}}, "acts": [
             a("attach", c=1, sync=True, keep=False), a("rread"), a("rread", hold=True), a("rpush"),
             a("attach", c=2, sync=True, keep=False), a("rpush"), a("rpush"), a("finish")]},
-        {"id": "probe-F10d", "cfg": {"kind": "map", "cap": 1, "init": {"k1": "i1"}, "strategy": "ignore"}, "acts": [
-            a("attach", c=1, sync=True, keep=False), a("rread"), a("rread"), a("rbad", op={"o": "bad", "b": 0}),
-            a("rset", op={"o": "upd", "k": "k2", "v": "r1"}), a("finish")]},
     ]
 
 
@@ -274,24 +276,25 @@ def b3_configs(tier, fixed):
         return [
             ("value bursts", consts("value", fixed, Settled=False, AllowEmpty=True, AllowStop=True, MaxCmd=1, MaxSet=1,
                                      MaxSteps=4, SockCap=1)),
-            ("map bursts hold bad-frames", consts("map", fixed, Settled=False, AllowHold=True, MaxCmd=2, MaxSet=1, MaxSteps=3, SockCap=1,
-                                                   Strategies=BOTH, MaxBad=1, AllowBadCmd=True, AllowTakeDrop=True)),
+            ("map bursts hold bad-frames", consts("map", fixed, Settled=False, AllowHold=True, MaxCmd=1, MaxSet=1, MaxSteps=3, SockCap=1,
+                                                   Strategies=BOTH, MaxBad=1)),
             ("map settled hold bad-frames", consts("map", fixed, Settled=True, AllowHold=True, AllowStop=True, MaxCmd=1, MaxSet=1,
-                                                    MaxSteps=4, SockCap=1, KeySeq="<- Keys1", Strategies=BOTH, MaxBad=1)),
+                                                    MaxSteps=4, SockCap=1, KeySeq="<- Keys1", Strategies=BOTH, MaxBad=1,
+                                                    OptSet="<- OptSyncOnly")),
         ]
     return [
         ("value bursts", consts("value", fixed, Settled=False, AllowEmpty=True, AllowStop=True, MaxCmd=2, MaxSet=1,
                                  MaxSteps=5, SockCap=1)),
         ("map bursts hold", consts("map", fixed, Settled=False, AllowHold=True, MaxCmd=2, MaxSet=1, MaxSteps=4, SockCap=1,
                                     InitLane="<- LaneM2")),
-        ("map bursts bad-frames", consts("map", fixed, Settled=False, AllowHold=True, MaxCmd=1, MaxSet=1, MaxSteps=4, SockCap=1,
-                                          KeySeq="<- Keys1", Strategies=BOTH, MaxBad=2, AllowBadCmd=True, AllowTakeDrop=True)),
+        ("map bursts bad-frames", consts("map", fixed, Settled=False, AllowHold=True, MaxCmd=0, MaxSet=1, MaxSteps=4, SockCap=1,
+                                          KeySeq="<- Keys1", Strategies=BOTH, MaxBad=2, AllowTakeDrop=True)),
         ("mapevent bursts", consts("mapevent", fixed, Settled=False, AllowHold=True, MaxCmd=1, MaxSet=1, MaxSteps=4, SockCap=1,
                                     KeySeq="<- Keys1", MaxBad=1, AllowTakeDrop=True)),
         ("value cap0 settled", consts("value", fixed, Settled=True, AllowEmpty=True, AllowStop=True, MaxCmd=3, MaxSet=1,
                                        MaxSteps=5, SockCap=0)),
-        ("map settled hold bad-frames", consts("map", fixed, Settled=True, AllowHold=True, AllowStop=True, MaxCmd=2, MaxSet=1, MaxSteps=5,
-                                                SockCap=1, KeySeq="<- Keys1", Strategies=BOTH, MaxBad=1)),
+        ("map settled hold bad-frames", consts("map", fixed, Settled=True, AllowHold=True, AllowStop=True, MaxCmd=1, MaxSet=1, MaxSteps=5,
+                                                SockCap=1, KeySeq="<- Keys1", Strategies=BOTH, MaxBad=1, OptSet="<- OptSyncOnly")),
     ]
 
 
@@ -307,8 +310,8 @@ def gen_configs(tier, fixed):
                                                MaxSteps=3 if q else 4, InitLane="<- LaneM1"), "bfs", 0))
     # a malformed frame at every position of a session (before linked, inside the sync, after synced), both strategies
     out.append(("map bad-frame placement exhaustive",
-                consts("map", fixed, SockCap=1, AllowHold=True, MaxCmd=0, MaxSet=1, KeySeq="<- Keys1", Strategies=BOTH, MaxBad=1,
-                       MaxSteps=4 if q else 5, InitLane="<- LaneM1", OptSet="<- OptSyncOnly" if q else "<- OptNoKeep"), "bfs", 0))
+                consts("map", fixed, SockCap=1, AllowHold=True, MaxCmd=0, MaxSet=0 if q else 1, KeySeq="<- Keys1", Strategies=BOTH, MaxBad=1,
+                       MaxSteps=4, InitLane="<- LaneM1", OptSet="<- OptSyncOnly" if q else "<- OptNoKeep"), "bfs", 0))
     n = 300 if q else 1000
     bad = dict(Strategies=BOTH, MaxBad=2, AllowBadCmd=True, AllowTakeDrop=True)
     out.append(("value deep sim", consts("value", fixed, SockCap=1, AllowEmpty=True, AllowStop=True, AllowHold=True, OptSet="<- OptAll",
@@ -338,10 +341,10 @@ def merge_cov(total, r):
         total[a] = (o[0] + d, o[1] + t)
 
 
-ACTIONS = ["A_Fwd", "A_Stop", "R_NewConsumer", "R_Linked", "R_Synced", "R_Event", "R_BadIgnore", "R_BadAbort", "R_Unlinked", "R_Stop",
+ACTIONS = ["A_Fwd", "A_Stop", "R_NewConsumer", "R_Linked", "R_Synced", "R_Event", "R_BadIgnore", "R_BadAbort", "R_Unlinked", "R_SockClosed", "R_Stop",
            "W_LinkDone", "W_IdleEmpty_Reg", "W_Idle_Block", "W_Idle_Reg", "W_Idle_Rec", "W_Idle_Gone",
-           "W_Wr_Done", "W_Wr_Rec", "W_Wr_Gone", "W_Wr_Reg", "W_Stop",
-           "Attach", "AttachLate", "CSend", "CDrop", "RRead", "RPush", "RSet", "RBad", "RUnlink", "Stop", "Finish"]
+           "W_Wr_Done", "W_Wr_Rec", "W_Wr_Gone", "W_Wr_Reg", "W_Stop", "W_SockFail",
+           "Attach", "AttachLate", "CSend", "CDrop", "RRead", "RPush", "RSet", "RBad", "RClose", "RUnlink", "Stop", "Finish"]
 
 
 def run(tier, out):
@@ -446,7 +449,9 @@ def run(tier, out):
             checker_cmd="tlc MC_DownlinkRuntime (INVARIANTS %s) + h_runtime dlruntime + tlc Trace_DownlinkSession" % " ".join(INVS))
     out.assumptions += [
         "consumers drain their notification channel continuously (channel sizes: 64 KiB and 7 bytes); a consumer that stops reading without dropping is not explored",
-        "the remote lane behaves by the WARP protocol (linked before events, a snapshot then synced per sync request)",
+        "the remote lane behaves by the WARP protocol (linked before events, a snapshot then synced per sync request); the only "
+        "deviations explored are event bodies that are no map message (at any point, also before linked) and a vanishing socket",
+        "SupplyBackpressure and MapBackpressure::push are not reachable from the downlink runtime (agent uplinks only)",
         "the socket towards the remote holds a whole number of request frames (long node uri; see harness socket_capacity)",
         "environment interleavings are those the driver can induce between polls of the runtime task (bursts + quiescence); "
         "timeouts (empty_timeout) never fire",
